@@ -257,9 +257,12 @@ def check_op(rep, fn, model, op, width):
             if isinstance(exp_ret, tuple) and exp_ret[0] == "bool":
                 want = exp_ret[1]
                 truth = None
+                NEG = {"==": "!=", "!=": "==", "<": ">=", ">=": "<", ">": "<=", "<=": ">"}
                 for (c, t) in conds:
                     if c == want:
                         truth = t
+                    elif c[0] == "cmp" and want[0] == "cmp" and c[2:] == want[2:] and NEG.get(c[1]) == want[1]:
+                        truth = not t          # the path tested the negated relation
                 okr = False
                 if ret == want:
                     okr = True
